@@ -368,6 +368,9 @@ var (
 // generator uses it to steer around that input class (and must count the
 // exclusion with CountExcluded) so the search continues behind the finding.
 func Open(key string) bool {
+	if os.Getenv("VERIF_REPLAY") != "" {
+		return false // a replayed tape is judged in full, nothing is steered around
+	}
 	findingsOnce.Do(func() {
 		openKeys = map[string]bool{}
 		path := os.Getenv("VERIF_FINDINGS")
